@@ -58,9 +58,9 @@ theorem validateCert_err {c : Cfg} {s s' : St} {ps : Bytes} {co : CertOut} {e : 
 /-- The certificate fields of the state after a step are either untouched or come from an accepted
 certificate bound to `ps`. -/
 def CertStep (s s' : St) (ps : Bytes) (co : CertOut) : Prop :=
-  (s'.remoteCertSet = s.remoteCertSet ∧ s'.remoteCert = s.remoteCert) ∨
+  (s'.remoteCertSet = s.remoteCertSet ∧ (s'.remoteCert, s'.remoteKey) = (s.remoteCert, s.remoteKey)) ∨
   (∃ pub ver cert, co.recombine = some (pub, ver) ∧ pub = ps ∧ co.verify = some cert ∧
-    s'.remoteCert = some cert)
+    (s'.remoteCert, s'.remoteKey) = (some cert, ps))
 
 theorem validateCert_certStep (c : Cfg) (s : St) (ps : Bytes) (co : CertOut) :
     CertStep s (validateCert c s ps co).1 ps co := by
@@ -79,17 +79,19 @@ theorem validateCert_certStep (c : Cfg) (s : St) (ps : Bytes) (co : CertOut) :
         · rename_i v hv
           right
           simp at hpub
-          exact ⟨pub, ver, v, hrc, hpub, hv, rfl⟩
+          exact ⟨pub, ver, v, hrc, hpub, hv, by simp [hpub]⟩
 
 theorem processIndex_cert (c : Cfg) (s : St) (p : Payload.Payload) (fl : MsgFlags) :
-    (processIndex c s p fl).1.remoteCertSet = s.remoteCertSet ∧ (processIndex c s p fl).1.remoteCert = s.remoteCert := by
+    (processIndex c s p fl).1.remoteCertSet = s.remoteCertSet ∧
+    ((processIndex c s p fl).1.remoteCert, (processIndex c s p fl).1.remoteKey) = (s.remoteCert, s.remoteKey) := by
   unfold processIndex
   split
   · simp only; split <;> (split <;> simp [fail])
   · simp
 
 theorem CertStep.of_eq {s s1 s2 : St} {ps : Bytes} {co : CertOut}
-    (h1 : s1.remoteCertSet = s.remoteCertSet ∧ s1.remoteCert = s.remoteCert) (h2 : CertStep s1 s2 ps co) :
+    (h1 : s1.remoteCertSet = s.remoteCertSet ∧ (s1.remoteCert, s1.remoteKey) = (s.remoteCert, s.remoteKey))
+    (h2 : CertStep s1 s2 ps co) :
     CertStep s s2 ps co := by
   rcases h2 with ⟨a, b⟩ | h
   · left; exact ⟨a.trans h1.1, b.trans h1.2⟩
@@ -189,7 +191,7 @@ theorem processPayload_ok_failed {c : Cfg} {s s' : St} {msg : Bytes} {fl : MsgFl
 
 theorem buildResponse_fields {c : Cfg} {s s' : St} {now : Nat} {wr : WriteOut} {sent : Sent} {a b : Bool}
     (h : buildResponse c s now wr = .ok (s', sent, a, b)) :
-    s'.remoteCertSet = s.remoteCertSet ∧ s'.remoteCert = s.remoteCert ∧ s'.payloadSet = s.payloadSet ∧
+    s'.remoteCertSet = s.remoteCertSet ∧ (s'.remoteCert, s'.remoteKey) = (s.remoteCert, s.remoteKey) ∧ s'.payloadSet = s.payloadSet ∧
     s'.failed = s.failed ∧ s'.remoteIndex = s.remoteIndex ∧ s'.msgIdx = s.msgIdx + 1 ∧ wr = .ok a b := by
   unfold buildResponse at h
   split at h
@@ -210,7 +212,7 @@ theorem buildResponse_fields {c : Cfg} {s s' : St} {now : Nat} {wr : WriteOut} {
         split at hm
         · simp at hm
         · rename_i s2 hs2
-          have hs : s2.remoteCertSet = s.remoteCertSet ∧ s2.remoteCert = s.remoteCert ∧ s2.payloadSet = s.payloadSet ∧
+          have hs : s2.remoteCertSet = s.remoteCertSet ∧ (s2.remoteCert, s2.remoteKey) = (s.remoteCert, s.remoteKey) ∧ s2.payloadSet = s.payloadSet ∧
               s2.failed = s.failed ∧ s2.remoteIndex = s.remoteIndex ∧ s2.msgIdx = s.msgIdx := by
             split at hs2
             · split at hs2
